@@ -70,13 +70,15 @@ func (fs TarWriter) CreateSymlink(n NodeSymlink) error {
 	return fs.w.WriteHeader(hdr)
 }
 
-// We're not using os.Filemode here but the low-level system modes where the mode bits
-// are in the lower half. Can't use os.ModeCharDevice here.
-const modeChar = 0x4000
+// tarMode converts a Go file mode into the permission, set-id and sticky bits
+// of a tar header (which are those of a stat mode, not of os.FileMode).
+func tarMode(m os.FileMode) int64 {
+	return int64(FilemodeToStatMode(m) & 07777)
+}
 
 func (fs TarWriter) CreateDevice(n NodeDevice) error {
 	var typ byte = gnutar.TypeBlock
-	if n.Mode&modeChar != 0 {
+	if n.Mode&os.ModeCharDevice != 0 {
 		typ = gnutar.TypeChar
 	}
 	hdr := &gnutar.Header{
